@@ -1,43 +1,19 @@
 ----------------------------- MODULE MCMatcher -----------------------------
-(* Model constants for Matcher.tla: pattern and tree families.              *)
-EXTENDS Matcher, SequencesExt
-
-MCNames  == {"x", "y"}
-Idents   == {"a", "b"}
-
-\* ---------------------------------------------------------------- constructors
-PAny        == [k |-> "any"]
-PStr(s)    == [k |-> "str", s |-> s]
-Ref(n)     == [k |-> "ref", n |-> n]
-Bind(n, s) == [k |-> "bind", n |-> n, sub |-> s]
-PId(s)     == [k |-> "id", name |-> s]
-PBin(a, b) == [k |-> "bin", x |-> a, y |-> b]
-PCall(f, l) == [k |-> "call", f |-> f, args |-> l]
-PNil       == [k |-> "nil"]
-PCons(h, t) == [k |-> "cons", h |-> h, t |-> t]
-Or2(a, b)  == [k |-> "or", alts |-> <<a, b>>]
-Not(a)     == [k |-> "not", a |-> a]
-
-TId(n)      == [k |-> "id", n |-> n]
-TBin(a, b)  == [k |-> "bin", x |-> a, y |-> b]
-TList(es)   == [k |-> "list", es |-> es]
-TCall(f, es) == [k |-> "call", f |-> f, args |-> TList(es)]
+(* Model constants for Matcher.tla: pattern and tree families (quick tier). *)
+EXTENDS MCMatcherBase
 
 \* ---------------------------------------------------------------- trees
 E0 == { TId(i) : i \in Idents }
-SeqsUpTo(S, n) == UNION { [1..m -> S] : m \in 0..n }
-BinOver(S)  == { TBin(a, b) : a \in S, b \in S }
-CallOver(F, S, n) == { TCall(f, es) : f \in F, es \in SeqsUpTo(S, n) }
 
 E1 == E0 \cup BinOver(E0) \cup CallOver(E0, E0, 1)                       \* 2 + 4 + 6
 \* sub-expressions used below the root in the quick tree family
 SubQ == E0 \cup { TBin(TId("a"), TId("b")), TCall(TId("a"), <<TId("b")>>) }
-TreesQuick == E1 \cup BinOver(SubQ) \cup CallOver(E0, SubQ, 2)
+\* a few trees with the other operator (token-valued bindings)
+MinusQ == { TBinO("-", a, b) : a \in E0, b \in E0 }
+            \cup { TBinO(o1, TBinO(o2, TId("a"), TId("b")), TBinO(o3, TId("a"), TId("b"))) : o1 \in {"+", "-"}, o2 \in {"+", "-"}, o3 \in {"+", "-"} }
+TreesQuick == E1 \cup BinOver(SubQ) \cup CallOver(E0, SubQ, 2) \cup MinusQ
 
 \* ---------------------------------------------------------------- patterns
-\* names are interchangeable: keep the patterns whose first name is "x"
-Canon(q) == LET b == Bindings(q) IN b = <<>> \/ b[1] = "x"
-Good(S)  == { q \in S : WellFormed(q) /\ Canon(q) }
 
 \* leaves: _, x, y, (Ident "a"), (Ident "b")
 Leaf == {PAny} \cup { Ref(n) : n \in MCNames } \cup { PId(PStr(i)) : i \in Idents }
@@ -61,6 +37,16 @@ IdS == { PId(s) : s \in StrP }
 FamS == Good(IdS \cup { PBin(a, b) : a \in IdS \cup {Ref("x")}, b \in IdS \cup {Ref("x")} }
                \cup { Or2(PBin(a, PId(PStr("b"))), b) : a \in IdS, b \in IdS }
                \cup { Not(PBin(a, b)) : a \in IdS, b \in IdS })
+
+\* family T: names bound to tokens, (BinaryExpr _ op _) / op@(Or "+" "-") / recall of a token
+OpP  == {PStr("+"), PStr("-"), PAny} \cup { Ref(n) : n \in MCNames }
+          \cup { Bind(n, Or2(PStr("+"), PStr("-"))) : n \in MCNames }
+          \cup { Or2(PStr("-"), Ref("x")), Not(PStr("+")), Not(Ref("x")) }
+OpPo == {PStr("+"), PAny, Ref("x"), Ref("y"), Bind("x", Or2(PStr("+"), PStr("-"))), Not(Ref("x"))}
+InnerT == {PAny, Ref("x")} \cup { PBinO(PAny, o, PAny) : o \in OpP }
+FamT == Good({ PBinO(a, o, b) : a \in InnerT, o \in OpPo, b \in InnerT }
+              \cup { Or2(PBinO(a, o, PId(PStr("b"))), b) : a \in InnerT, o \in {PStr("+"), Ref("x"), Bind("x", PAny)}, b \in {PAny, Ref("x"), PBinO(PAny, Ref("x"), PAny)} }
+              \cup { Not(PBinO(a, PAny, b)) : a \in InnerT, b \in InnerT })
 
 \* family L: lists.  (CallExpr f <list pattern>), alone and under Or / Not
 HeadQ == Leaf \cup { Bind(n, s) : n \in MCNames, s \in {PAny, PId(PStr("a"))} }
@@ -92,11 +78,12 @@ FamD == Good({ Or2(s, l) : s \in SeqD, l \in LastD }
                                          l \in { PBin(PAny, PId(PStr("b"))), PBin(Ref("y"), PId(PStr("a"))) },
                                          m \in LastD })
 
-QuickPats  == SetToSeq(FamAq \cup FamS \cup FamLq \cup FamD)
+QuickPats  == SetToSeq(FamAq \cup FamS \cup FamT \cup FamLq \cup FamD)
 DPats      == SetToSeq(FamD)
 QuickTrees == SetToSeq(TreesQuick)
 
-\* generation configs print the dictionary once, before the first state
-InitGen == AllWellFormed(PatSeq) /\ EmitDict(PatSeq, TreeSeq) /\ Init
-SpecGen == InitGen /\ [][Next]_vars
+SpecQuick == GenInit(QuickPats, QuickTrees) /\ [][MatchCall(QuickPats, QuickTrees)]_vars
+\* the depth-3 family alone, without emission: used with the deviating modes (self-test)
+SpecD     == InitOver(DPats) /\ [][MatchCall(DPats, QuickTrees)]_vars
+SpecQuickNoEmit == InitOver(QuickPats) /\ [][MatchCall(QuickPats, QuickTrees)]_vars
 =============================================================================
